@@ -254,6 +254,10 @@ class Builder:
             return self.routines[node["i"][0]](*[B(x) for x in a])
         if k == "Comment":
             return pt.Comment(node["s"], B(a[0]))
+        if k == "Pragma":
+            return pt.Pragma(B(a[0]), compiler_version=node.get("s") or ">=0.1.0")
+        if k == "Nonce":
+            return pt.Nonce("base16", bytes(node["n"]).hex(), B(a[0]))
         raise ValueError("replay: unknown kind %r" % k)
 
 
